@@ -138,7 +138,7 @@ Definition ex_lit_style : list lpos :=
 
 Theorem C02_example_literal :
   w_literal ex_lit ex_lit_style [ECRLF] =
-    bs "(\" ++ [x0d] ++ bs "\A" ++ [x0a] ++ bs "\(\" ++ [x0a] ++ bs "\" ++ [x0d; x0a] ++ bs "\134\0079\r\" ++ [x0d; x0a] ++ bs ")" /\
+    bs "(\" ++ [x0d] ++ bs "\A" ++ [x0a] ++ bs "\(\" ++ [x0a] ++ bs "\" ++ [x0d; x0a] ++ bs "\134\79\r\" ++ [x0d; x0a] ++ bs ")" /\
   no_raw_paren ex_lit ex_lit_style = true /\ no_raw_cr ex_lit ex_lit_style = true /\
   literal_string 100 (w_literal ex_lit ex_lit_style [ECRLF] ++ bs "/X") = POk ex_lit (bs "/X").
 Proof. repeat split; vm_compute; reflexivity. Qed.
